@@ -18,12 +18,21 @@ def pcc_landscape(
     product = f0 * f1.conj()
     power = _abs2(backend.ifftn(product))
     power = backend.fftshift(power)
+    power_shape = power.shape
     centers = tuple(s // 2 for s in power.shape)
     slices = tuple(
         slice(max(c - int(shiftl), 0), min(c + int(shiftr) + 1, s), None)
         for c, shiftl, shiftr, s in zip(centers, max_shifts, max_shifts, power.shape)
     )
     power = power[slices]
+    # NOTE: keep the nominal shape (2 * int(max_shift) + 1) even if the search range
+    # exceeds the image size, as the other landscape functions do.
+    pad_width = [
+        (max(int(shift) - c, 0), max(c + int(shift) + 1 - s, 0))
+        for c, shift, s in zip(centers, max_shifts, power_shape)
+    ]
+    if any(w != (0, 0) for w in pad_width):
+        power = backend.pad(power, pad_width, mode="constant", constant_values=0)
     return power
 
 
